@@ -5,7 +5,7 @@ from vlib.proto import unhex
 
 LEAN_TARGETS = ["LyModel.Props.C03", "LyModel.Props.C03Base", "LyModel.Props.C03Union", "LyModel.Props.C03Ident", "LyModel.Props.C03Pattern", "LyModel.Props.C03Dt", "LyModel.Props.C03Hex", "LyModel.Props.C03InstId", "LyModel.Props.C03Bin"]
 AUDIT = ["Audit/C03.lean", "Audit/C03Fn.lean"]
-GENERATED = ["ValBounds", "Consts", "ValExt", "ValHex", "ValBin"]
+GENERATED = ["ValBounds", "Consts", "ValExt", "ValHex", "ValBin", "ValInst"]
 LEAN_TARGETS += ["LyModel.Props.C03Fn"]; GENERATED += ["FnUtf8"]     # functions translated from the C source (tools/c2lean.py), bridged in lean/LyModel/Bridge
 ASSUMPTIONS = [
     "libc is modelled, not verified: strtoll/strtoull of glibc 2.36 in the C locale (leading isspace, one optional sign, 0x/0 prefixes for base 0/16, "
@@ -26,6 +26,7 @@ TRUSTED = ["tools/extractors/val.py (bounds, LYB sizes, executed lyplg_type_chec
            "tools/extractors/valx.py (shape of the union / identityref / string-pattern / date-and-time functions, repair switches)",
            "tools/extractors/valhex.py (typedef patterns of the hex-string family, shape of the plug-in)",
            "tools/extractors/valbin.py (base64 tables, shape of plugins_types/binary.c)",
+           "tools/extractors/valinst.py (shape of the instance-identifier store / print functions, quote characters, repair switches)",
            "tools/checks/valinst.py + the schema serialisation check of harness/api_types.c (instance-identifier schemas)", "harness/api_types.c"]
 
 
